@@ -24,7 +24,7 @@ CLAIMS = {
          'Encryptor::encrypt_zero_internal is proved to return a size-2 ciphertext on the requested level, in the representation of the scheme, with scale 1 and correction factor 1, to refuse unknown levels, missing keys and seed + public key, to ACCEPT every other request (live variant), '
          'and, for public-key encryption below the key level, to produce each polynomial as the first k*N words of the scheme\'s own divide-and-round routine (CKKS: NTT form, BFV: coefficient form, BGV: mod-t variant) applied to a zero encryption made one level up. '
          'ASSUMED: the metadata contracts of util::rlwe::encrypt_zero::* (their sampling is covered separately in C16). '
-         'Not covered: decrypt(encrypt(m)) == m itself (needs NTT/RLWE noise analysis), encrypt_internal (message addition), the decryptor, seed expansion, CKKS error.', '5 C01'),
+         'The arithmetic of BFV decryption after the key product, RNSTool::decrypt_scale_and_round, is proved word by word in unit c10_behz. Not covered: decrypt(encrypt(m)) == m itself (needs NTT/RLWE noise analysis), encrypt_internal (message addition), dot_product_ct_sk_array and the scheme dispatch of the decryptor, seed expansion, CKKS error.', '5 C01'),
  'C02': ('Word-level contracts on the BFV/BGV evaluation code that does not need the NTT or RNS theorems: negate / add / sub in all three call forms are proved, for every pair of operand sizes and every pair of BGV correction factors, '
          'to produce exactly (a +/- b) mod q_j in every RNS word of the common polynomials and the (negated, for a - b) extra polynomials of the longer operand, after multiplying both operands by scalars e1, e2 with e1*f1 = e2*f2 = f (mod t) '
          '(balance_correction_factors is proved for all factor pairs, including termination and absence of i64 overflow); invalid operands, different levels, different representations and mismatched scales are refused. '
@@ -66,9 +66,9 @@ CLAIMS = {
          'The NTT-form variants (divide_and_round_q_last_ntt_inplace, mod_t_and_divide_q_last_ntt_inplace) are proved word by word against the same formulas with the forward/inverse transforms as uninterpreted functions of (table, input) with their documented ranges: the rounding constant q_k/2, its correction, the negation and q_k^-1 steps and the table index used for each component are pinned. '
          'ASSUMED: the constants RNSTool::new stores (inv_q_last_mod_q etc.) equal their definitions; linearity of the NTT (so the NTT-form result is the transform of the coefficient-form result) is not used or proved. '
          'Fast base conversion and the BEHZ tools (unit c10_behz): BaseConverter::fast_convert_array returns in word (i, j) exactly (sum_l [x_l * (Q/q_l)^-1]_{q_l} * [Q/q_l]_{p_i}) mod p_i for every base size and coefficient count (the two-word dot product shown free of overflow for up to 64 primes of up to 61 bits), and refuses inconsistent lengths; '
-         'fastbconv_m_tilde (scale by m_tilde, convert q -> Bsk and q -> {m_tilde}), sm_mrq ((x + q*[-x*q^-1]_centered) * m_tilde^-1 per Bsk prime), fast_floor ((x_Bsk - FastBConv(x_q)) * q^-1) and fastbconv_sk (Shenoy-Kumaresan with the centered alpha correction) are proved word by word against these formulas. '
+         'fastbconv_m_tilde (scale by m_tilde, convert q -> Bsk and q -> {m_tilde}), sm_mrq ((x + q*[-x*q^-1]_centered) * m_tilde^-1 per Bsk prime), fast_floor ((x_Bsk - FastBConv(x_q)) * q^-1) and fastbconv_sk (Shenoy-Kumaresan with the centered alpha correction) are proved word by word against these formulas, and so is RNSTool::decrypt_scale_and_round (BFV decryption: scale by gamma*t, convert to {t, gamma}, multiply by -q^-1, subtract the centered gamma component, multiply by gamma^-1 mod t). '
          'ASSUMED: shapes and operands stored by RNSBase::initialize / RNSTool::new (sizes, operand quotients, Bsk = B U {m_sk}, m_tilde below every Bsk prime). '
-         'Not covered yet: that these word formulas compose to the exact centered integer result (BEHZ error analysis), decompose/compose (CRT), scale-and-round decryption, exact_convey (uses f64), RNSTool::new.', '5 C10'),
+         'Not covered yet: that these word formulas compose to the exact centered integer result (BEHZ error analysis), decompose/compose (CRT), exact_convey (uses f64), RNSTool::new.', '5 C10'),
  'C16': ('Two groups of contracts. (1) BlakeRNG as a data structure with an abstract view: the generator is a position in ONE byte stream determined by the seed (block c of the stream is the BLAKE3 XOF of seed||le64(c), the XOF being an uninterpreted function); '
          'representation invariant (the buffer holds block counter-1, buffer_current bytes consumed) established by from_seed and preserved by refill_buffer, fill_bytes, next_u32, next_u64; fill_bytes hands out exactly the next |dest| stream bytes and advances the position by |dest| '
          '(so output does not depend on how reads are chunked: a corollary of the contract), next_u32/next_u64 read the next 4/8-aligned little-endian word. '
